@@ -43,6 +43,7 @@ func checkC20(c *Ctx) error {
 	type plan struct {
 		flat  [][]probe.Op // per round
 		seeds []int64
+		env   []probe.Op
 	}
 	plans := map[string]*plan{}
 	for i := 0; i < confN; i++ {
@@ -53,6 +54,21 @@ func checkC20(c *Ctx) error {
 		o.ScopeProb = 0.5
 		o.ContextualBias = i%2 == 0
 		conf := gen.Behaviour(r, o)
+		// every generated helper closure is shared by all goroutines: make sure several parameters and arguments go
+		// through each of them (env, envInt, todo, concatenation, function calls)
+		for k := 0; k < 3; k++ {
+			conf.Params = append(conf.Params,
+				cfg.KV{K: fmt.Sprintf("envS%d", k), V: cfg.Str(fmt.Sprintf("%%env(\"VERIF_ENV_%d\", \"d%d\")%%", k, k))},
+				cfg.KV{K: fmt.Sprintf("envI%d", k), V: cfg.Str(fmt.Sprintf("%%envInt(\"VERIF_ENVI_%d\", %d)%%", k, 100+k))},
+				cfg.KV{K: fmt.Sprintf("cat%d", k), V: cfg.Str(fmt.Sprintf("a%%envS%d%%-%%envI%d%%", k, k))},
+				cfg.KV{K: fmt.Sprintf("td%d", k), V: cfg.Str(fmt.Sprintf("%%todo(\"later %d\")%%", k))})
+		}
+		for si := range conf.Services {
+			sv := &conf.Services[si]
+			if sv.Constructor != nil && !sv.IsTodo() {
+				sv.Args = append(sv.Args, cfg.Str(fmt.Sprintf("%%env(\"VERIF_ENV_%d\", \"x\")%%:%%envInt(\"VERIF_ENVI_%d\", 7)%%", si%3, si%3)))
+			}
+		}
 		// operation alphabet of this configuration
 		var alpha []probe.Op
 		for _, s := range conf.Services {
@@ -81,13 +97,26 @@ func checkC20(c *Ctx) error {
 		})
 		pl := &plan{}
 		ops := []probe.Op{}
+		// some environment variables are set, some are not (a helper that caches only successful look-ups writes only then)
 		for k := 0; k < 3; k++ {
-			ops = append(ops, probe.Op{Op: "unsetenv", Name: fmt.Sprintf("VERIF_ENV_%d", k)}, probe.Op{Op: "unsetenv", Name: fmt.Sprintf("VERIF_ENVI_%d", k)})
+			if (i+k)%3 == 2 {
+				ops = append(ops, probe.Op{Op: "unsetenv", Name: fmt.Sprintf("VERIF_ENV_%d", k)}, probe.Op{Op: "unsetenv", Name: fmt.Sprintf("VERIF_ENVI_%d", k)})
+			} else {
+				ops = append(ops, probe.Op{Op: "setenv", Name: fmt.Sprintf("VERIF_ENV_%d", k), Val: fmt.Sprintf("v%d", k)}, probe.Op{Op: "setenv", Name: fmt.Sprintf("VERIF_ENVI_%d", k), Val: fmt.Sprintf("4%d", k)})
+			}
 		}
+		envOps := append([]probe.Op(nil), ops...)
+		pl.env = envOps
 		for rd := 0; rd < rounds; rd++ {
 			flat := make([]probe.Op, G*reps)
 			for k := range flat {
 				flat[k] = alpha[r.Intn(len(alpha))]
+			}
+			// first operations: every goroutine starts on a different parameter that goes through a shared generated helper
+			// (each parameter has its own lock in the runtime, so these evaluations really overlap right after the barrier)
+			helpers := []string{"envS0", "envI0", "cat0", "envS1", "envI1", "cat1", "envS2", "envI2", "cat2", "td0", "td1", "td2"}
+			for gi := 0; gi < G; gi++ {
+				flat[gi*reps] = probe.Op{Op: "param", Name: helpers[(gi+rd)%len(helpers)]}
 			}
 			seed := c.Seed*977 + int64(i*100+rd)
 			pl.flat = append(pl.flat, flat)
@@ -163,7 +192,8 @@ func checkC20(c *Ctx) error {
 				c.Violate("panic-under-concurrency:"+sigWords(p), fmt.Sprintf("unit %s round %d: %s", u.ID, rd, p), files)
 			}
 			// expected counters: the reference container executes the same multiset sequentially
-			seq := append([]probe.Op{{Op: "new"}}, pl.flat[rd]...)
+			seq := append(append([]probe.Op{}, pl.env...), probe.Op{Op: "new"})
+			seq = append(seq, pl.flat[rd]...)
 			seq = append(seq, probe.Op{Op: "counts"})
 			exp := RunModel(u.Cfg, seq, nil)
 			last := exp[len(exp)-1]
@@ -284,4 +314,3 @@ func head(s []string, n int) []string {
 	return s
 }
 
-var _ = cfg.P[int]
